@@ -52,7 +52,11 @@ def run(tier, replay_path=None):
         ty1 = [c for c in ty if c["def"]["kind"] != "enum" or len(c["def"]["vs"]) <= 1]
         ty2 = [c for c in ty if not (c["def"]["kind"] != "enum" or len(c["def"]["vs"]) <= 1)]
         simc = [{"def": c["def"], "plan": c["plan"]} for c in sim.json_payloads("CASE")]
-        cases = sw + units + (sample(ty1, 1100, rng) if q else ty1) + sample(ty2, 3000, rng) + simc
+        # quick: every single-variant definition over two of the five variant names (all attribute forms,
+        # shapes, container renames, both derives), a seeded sample of the others
+        keep = [c for c in ty1 if c["def"]["kind"] != "enum" or c["def"]["vs"][0]["n"] in ("Table", "XMLHttp2Request")]
+        rest = [c for c in ty1 if not (c["def"]["kind"] != "enum" or c["def"]["vs"][0]["n"] in ("Table", "XMLHttp2Request"))]
+        cases = sw + units + (keep + sample(rest, 300, rng) if q else ty1) + sample(ty2, 3000, rng) + simc
         seen = set(); uniq = []
         for c in cases:
             k = json.dumps(c["def"], sort_keys=True)
